@@ -2,6 +2,7 @@ use crate::layer::LayerType;
 use crate::pixel::{Pixels, RawPixels};
 use crate::reader::AseReader;
 use crate::tilemap::TilemapData;
+use crate::tileset::TilesetsById;
 use crate::user_data::UserData;
 use crate::{
     layer::LayersData, AsepriteFile, AsepriteParseError, ColorPalette, PixelFormat, Result,
@@ -196,6 +197,7 @@ impl RawCel<RawPixels> {
         self,
         cel_id: CelId,
         layers: &LayersData,
+        tilesets: &TilesetsById,
         pixel_format: &PixelFormat,
         palette: Option<Arc<ColorPalette>>,
         validate_ref: &F,
@@ -230,8 +232,11 @@ impl RawCel<RawPixels> {
                 CelContent::Linked(other_frame)
             }
             CelContent::Tilemap(tilemap) => {
-                if let LayerType::Tilemap(_) = layers[cel_id.layer as u32].layer_type {
+                if let LayerType::Tilemap(tileset_id) = layers[cel_id.layer as u32].layer_type {
                     tilemap.validate_size()?;
+                    if let Some(tileset) = tilesets.get(tileset_id) {
+                        tilemap.validate_tile_ids(tileset.tile_count())?;
+                    }
                 } else {
                     return Err(AsepriteParseError::InvalidInput(format!(
                         "Invalid cel. Tilemap Cel ({}) outside of tilemap layer.",
@@ -253,6 +258,7 @@ impl CelsData<RawPixels> {
     pub(crate) fn validate(
         self,
         layers: &LayersData,
+        tilesets: &TilesetsById,
         pixel_format: &PixelFormat,
         palette: Option<Arc<ColorPalette>>,
     ) -> Result<CelsData<Pixels>> {
@@ -301,6 +307,7 @@ impl CelsData<RawPixels> {
                     Some(cel.validate(
                         cel_id,
                         layers,
+                        tilesets,
                         pixel_format,
                         palette.clone(),
                         &validate_ref,
